@@ -1,5 +1,5 @@
 (* Model/Zip.v — transcription of zipfs/fs.go and zipfs/file.go.
-   archive/zip is trusted: zip.File.Open() is a reader that yields exactly the entry's bytes
+   archive/zip is trusted: zip.File.Open() is a reader that yields exactly the aentry's bytes
    (Store and Deflate alike) and UncompressedSize64 is their number.
 
    The model has a switch [legacy].  legacy = true is the code as it stands in /repo today;
@@ -13,21 +13,21 @@ From AF Require Import Lib.Bytes Lib.Path Lib.Ops Gen.Consts Model.ByteFile Mode
 Local Open Scope Z_scope.
 
 (* ---------------------------------------------------------------- fs.go New *)
-Definition zip_add (ix : index) (e : entry) : index :=
+Definition zip_add (ix : index) (e : aentry) : index :=
   let '(d, f) := splitpath (ename e) in
   let ix1 := idx_ensure d ix in
-  let ix2 := idx_put_first d f e ix1 in                     (* the first entry of a name wins *)
+  let ix2 := idx_put_first d f e ix1 in                     (* the first aentry of a name wins *)
   if eisdir e then idx_ensure (join2 d f) ix2 else ix2.
 
 Definition zip_new (legacy : bool) (a : archive) : index :=
   fold_left zip_add a (if legacy then [] else [(s_slash, [])]).        (* PATCH Z2 *)
 
 (* zip.FileHeader.FileInfo(): Name = path.Base(header name), Size = UncompressedSize64 *)
-Definition zinfo (e : entry) : finfo := mk_info (path_base (ename e)) (eisdir e) (esize e).
+Definition zinfo (e : aentry) : finfo := mk_info (path_base (ename e)) (eisdir e) (esize e).
 
 (* ---------------------------------------------------------------- file.go File *)
 (* zrd: the io.ReadCloser from zipfile.Open(): None = not opened yet, Some k = k bytes consumed *)
-Record zh := mkZH { zfile : option entry; zisdir : bool; zclosed : bool; zoff : Z; zbuf : bytes; zrd : option nat }.
+Record zh := mkZH { zfile : option aentry; zisdir : bool; zclosed : bool; zoff : Z; zbuf : bytes; zrd : option nat }.
 
 Definition zset_off (h : zh) (o : Z) : zh := mkZH (zfile h) (zisdir h) (zclosed h) o (zbuf h) (zrd h).
 Definition zset_buf (h : zh) (b : bytes) (r : nat) : zh := mkZH (zfile h) (zisdir h) (zclosed h) (zoff h) b (Some r).
@@ -39,7 +39,7 @@ Definition read_full (c : bytes) (pos k : nat) : bytes * option err :=
       else if Nat.eqb (length b) 0 then Some (E KEOF) else Some (E KUnexpectedEOF)).
 
 (* file.go:22-42 fillBuffer *)
-Definition fill_buffer (e : entry) (h : zh) (offset : Z) : zh * option err :=
+Definition fill_buffer (e : aentry) (h : zh) (offset : Z) : zh * option err :=
   let rd := match zrd h with Some r => r | None => 0%nat end in
   let size := esize e in
   let '(offset, err) := if size <? offset then (size, Some (E KEOF)) else (offset, None) in
@@ -103,7 +103,7 @@ Definition z_name (h : zh) : str :=
   match zfile h with None => s_slash | Some e => joined (ename e) end.
 
 (* file.go:114-124 getDirEntries *)
-Definition z_dir_entries (ix : index) (h : zh) : list (str * entry) + err :=
+Definition z_dir_entries (ix : index) (h : zh) : list (str * aentry) + err :=
   if negb (zisdir h) then inr (E KENOTDIR)
   else match alist_get (z_name h) ix with
        | Some m => inl m
